@@ -29,7 +29,7 @@ macro_rules
       (simp only [bind, Except.bind, pure, Except.pure] at $h:ident
        repeat' split at $h:ident
        all_goals (first | (cases $h:ident; done) | skip)
-       all_goals (simp only [chk_eq_ok, soBasic_eq_ok, decide_eq_true_eq, Bool.not_eq_true', Option.isNone_iff_eq_none] at *)))
+       all_goals (try simp only [chk_eq_ok, soBasic_eq_ok, decide_eq_true_eq, Bool.not_eq_true', Option.isNone_iff_eq_none] at *)))
 
 theorem chk_ok {c : Bool} {e : Err} {v : Unit} (h : (if c = true then Except.ok () else Except.error e) = Except.ok v) :
     c = true := by
